@@ -31,3 +31,37 @@ class Builder:
         from sc3.synth.synthdef import SynthDef
         from vlib.graph import def_bytes
         return def_bytes(SynthDef(self.spec['name'], lambda: self.body()))
+
+
+class OutBuilder:
+    """spec = {'name', 'cls': Out|ReplaceOut|OffsetOut|XOut, 'bus', 'zeros':
+    nested list of literal zeros}: the graph function passes the same nested
+    list object (a constant "muted" layout kept by the caller) among the
+    channels of an audio output unit in every build."""
+
+    def __init__(self, spec, fail_at=None, fail_exc=None):
+        self.spec = spec
+        self.objs = copy.deepcopy(spec['zeros'])
+        self.fail_at = fail_at
+        self.fail_exc = fail_exc
+
+    def body(self, params=None):
+        from sc3.synth.ugens import installed_ugens as U
+        if self.fail_at == 0:
+            raise self.fail_exc
+        sig = U['SinOsc'].ar(440, 0)
+        args = [self.spec['bus']]
+        if self.spec['cls'] == 'XOut':
+            args.append(0.5)
+        getattr(U[self.spec['cls']], 'ar')(*args, [sig, self.objs])
+        if self.fail_at is not None and self.fail_at > 0:
+            raise self.fail_exc
+
+    def build(self):
+        from sc3.synth.synthdef import SynthDef
+        from vlib.graph import def_bytes
+        return def_bytes(SynthDef(self.spec['name'], lambda: self.body()))
+
+
+def builder(spec, *a):
+    return (OutBuilder if 'zeros' in spec else Builder)(spec, *a)
